@@ -712,6 +712,21 @@ func (fi *FuncInfo) pathsImplyOpt(at ssa.Instruction, from int, spec *BF, asTest
 			}
 		}
 	}
+	// comparisons of the same two quantities as a spec atom (a<b bears on a>b)
+	dirs := map[string]bool{}
+	for _, a := range sm {
+		if a.L != nil && len(a.L.T) > 0 {
+			d, _, _ := linDirection(a.L)
+			dirs[d] = true
+		}
+	}
+	sameDir := func(a *BAtom) bool {
+		if a.L == nil || len(a.L.T) == 0 || len(dirs) == 0 {
+			return false
+		}
+		d, _, _ := linDirection(a.L)
+		return dirs[d]
+	}
 	relevant := func(f *BF) bool {
 		am := map[string]*BAtom{}
 		f.atoms(am)
@@ -720,6 +735,9 @@ func (fi *FuncInfo) pathsImplyOpt(at ssa.Instruction, from int, spec *BF, asTest
 		}
 		for k, a := range am {
 			if _, ok := sm[k]; ok {
+				continue
+			}
+			if sameDir(a) {
 				continue
 			}
 			if a.EnumSym != "" && enumSyms[a.EnumSym] {
@@ -760,6 +778,9 @@ func (fi *FuncInfo) pathsImplyOpt(at ssa.Instruction, from int, spec *BF, asTest
 					lit = cf
 				} else if pj := projectBF(cf, func(a *BAtom) bool {
 					if _, ok := sm[a.Key]; ok {
+						return true
+					}
+					if sameDir(a) {
 						return true
 					}
 					if a.EnumSym != "" && (enumSyms[a.EnumSym] || a.EnumVal == 0 && zeroSyms[a.EnumSym] != nil) {
